@@ -31,6 +31,14 @@ Proof.
 Qed.
 Print Assumptions C12_after_write_rejected.
 
+(* the same after a non-atomic bulk in which at least one element was accepted (each element is a facade write) *)
+Theorem C12_after_bulk_write_rejected : forall (H : bytes -> bytes) pre f now b os b' rs now' rs',
+  Forall (fun o => o_dry o = false) os -> w_bulk H pre f now b os = (b', rs) ->
+  (exists lid tid hit, In (BRes (Some (ROk lid tid hit))) rs) ->
+  imp_import H pre f now' b' rs' = (b', Some IENotInitializing).
+Proof. intros H pre f now b os b' rs now' rs'. apply bulk_commit_then_import_rejected. Qed.
+Print Assumptions C12_after_bulk_write_rejected.
+
 (* in-use is absorbing: no write path and no import ever leaves it, so the rejection is permanent *)
 Theorem C12_monotone : forall (H : bytes -> bytes) pre f now b,
   i_l b = InUse ->
